@@ -27,6 +27,8 @@ def _install():
 
 
 def _kcol(ids, kind):
+    if kind == "cat":          # categories a..d declared in order, "d" never used
+        return pd.Categorical.from_codes([-1 if i == NULL else i - 1 for i in ids], categories=[STR[c] for c in (1, 2, 3, 4)])
     if kind == "str":
         return np.array([None if i == NULL else STR[i] for i in ids], dtype=object)
     return np.array([np.nan if i == NULL else float(i) for i in ids])
@@ -35,7 +37,7 @@ def _kcol(ids, kind):
 def _kdec(x, kind):
     if x is None or (isinstance(x, float) and x != x) or x is pd.NA:
         return NULL
-    if kind == "str":
+    if kind in ("str", "cat"):
         return api.RSTR.get(x, JUNK)
     return int(x) if float(x) == int(x) else JUNK
 
@@ -105,6 +107,8 @@ def build_frame(case):
 
 
 def selected_names(case, vnames):
+    if case.get("select") == "withkey" and not case.get("series"):
+        return ["k1", vnames[0]]
     if case.get("series") or case.get("select") == "one":
         return vnames[:1]
     if case.get("select") == "last":
@@ -118,6 +122,8 @@ def _select(g, case, vnames):
         return g, vnames
     if sel == "one":
         return g[vnames[0]], vnames[:1]
+    if sel == "withkey":
+        return g[["k1", vnames[0]]], ["k1", vnames[0]]
     return g[[vnames[-1]]], vnames[-1:]
 
 
@@ -146,6 +152,10 @@ def run_case(case):
     traces = []
     meta = {"cfg": {k: case.get(k) for k in ("by", "index", "method", "select", "series", "kkinds", "seed")}, "k1": case["k1"], "k2": case.get("k2"), "vcols": case["vcols"]}
 
+    allcols = dict(case["vcols"])
+    if case.get("select") == "withkey":
+        allcols["k1"] = case["k1"]          # a key column selected as a value column is aggregated like any other
+
     def labels_of(idx):
         if isinstance(idx, pd.MultiIndex):
             return [[_kdec(x, k) for x, k in zip(t, kkinds)] for t in idx.tolist()]
@@ -166,7 +176,7 @@ def run_case(case):
                 res_ = [to_rat(x) for x in a.tolist()]
             else:
                 res_ = [NULL if x != x else (int(x) if x == int(x) else JUNK) for x in a.tolist()]
-            t = dict(meta, kind="core", impl=impl, op=op, keys=krows, vals=(case["vcols"][str(c)] if str(c) in case["vcols"] else [1] * n), mask={"k": "none"}, tf=0, oo=1, sort=1,
+            t = dict(meta, kind="core", impl=impl, op=op, keys=krows, vals=(allcols[str(c)] if str(c) in allcols else [1] * n), mask={"k": "none"}, tf=0, oo=1, sort=1,
                      rank=rank, seed=[], nonull=0, out="ok", labels=labs, res=res_)
             if op in ("std", "var"):
                 t["ddof"] = 1
@@ -179,7 +189,7 @@ def run_case(case):
         out = [dict(meta, kind="cols", impl=impl, expected=(list(sel_names) if op != "cumcount" else cols[:1]), got=cols, out="ok")]
         for c in fr.columns:
             a = np.asarray(fr[c], dtype=float)
-            vals = case["vcols"].get(str(c), [1] * n)
+            vals = allcols.get(str(c), [1] * n)
             k1 = [(NULL if NULL in r else (r[0] if len(r) == 1 else r[0] * 10 + r[1])) for r in krows]     # one abstract group id per row
             ids = sorted({k for k in k1 if k != NULL})
             k1 = [NULL if k == NULL else ids.index(k) + 1 for k in k1]
@@ -239,7 +249,7 @@ def run_case(case):
         karrs = [_kcol(k, kd) for k, kd in zip(keys, kkinds)]
         gb = call(GroupBy, karrs[0] if len(karrs) == 1 else karrs)
         sel_names = selected_names(case, vnames)
-        vals_obj = pd.DataFrame({nm: np.array([np.nan if v == NULL else float(v) for v in case["vcols"][nm]]) for nm in sel_names}, index=obj.index)
+        vals_obj = pd.DataFrame({nm: np.array([np.nan if v == NULL else float(v) for v in allcols[nm]]) for nm in sel_names}, index=obj.index)
         if meth in AGG:
             r = call(gb.size) if meth == "size" else call(getattr(gb, meth), vals_obj)
             traces += agg_traces("core", r, sel_names)
@@ -256,16 +266,16 @@ def run_case(case):
     try:
         pg = obj.groupby(**kw)
         if not case.get("series") and case.get("select") is not None:
-            pg = pg[vnames[0]] if case["select"] == "one" else pg[[vnames[-1]]]
+            pg = pg[vnames[0]] if case["select"] == "one" else pg[["k1", vnames[0]]] if case["select"] == "withkey" else pg[[vnames[-1]]]
         if meth in AGG:
             r = pg.size() if meth == "size" else getattr(pg, meth)()
             if meth != "size" and not isinstance(r, pd.Series):
-                r = r[[c for c in r.columns if c in case["vcols"]]]
+                r = r[[c for c in r.columns if c in allcols]]
             traces += agg_traces("pandas", r, sel_names if meth != "size" else sel_names)
         elif meth in ("cumsum", "cummax", "cummin"):
             r = getattr(pg, meth)()
             if not isinstance(r, pd.Series):
-                r = r[[c for c in r.columns if c in case["vcols"]]]
+                r = r[[c for c in r.columns if c in allcols]]
             traces += row_traces("pandas", r, sel_names, "cum", meth, judge_nonnull_only=True)
         elif meth == "cumcount":
             traces += row_traces("pandas", pg.cumcount(), [], "cum", meth)
